@@ -114,6 +114,10 @@ type httptestRouter struct {
 	}
 }
 
+// parserIgnoreHost is the ignore-host setting of the parsers build() creates (drawn per case): it changes how metric
+// lines get their source, an event always has the sender's address as source.
+var parserIgnoreHost bool
+
 func build(t vt.TB, nBackends int, maxConc uint, parsers int, static []string, answers map[string]*sender, holdLookups chan struct{}) *pipeline {
 	p := &pipeline{in: make(chan []*statsd.Datagram), ci: fakes.NewCachedInstances()}
 	var bks []gostatsd.Backend
@@ -134,7 +138,7 @@ func build(t vt.TB, nBackends int, maxConc uint, parsers int, static []string, a
 	go func() { defer p.wg.Done(); p.bh.Run(ctx) }()
 	go func() { defer p.wg.Done(); ch.Run(ctx) }()
 	for i := 0; i < parsers; i++ {
-		dp := statsd.NewDatagramParser(p.in, "", false, 0, ch, 0, false, logrus.StandardLogger())
+		dp := statsd.NewDatagramParser(p.in, "", parserIgnoreHost, 0, ch, 0, false, logrus.StandardLogger())
 		p.wg.Add(1)
 		go func() { defer p.wg.Done(); dp.Run(ctx) }()
 	}
@@ -215,6 +219,7 @@ func TestEventsThroughPipeline(t *testing.T) {
 			senders[i] = senderGen(i).Draw(t, fmt.Sprintf("sender%d", i))
 			answers[senders[i].ip] = senders[i]
 		}
+		parserIgnoreHost = rapid.Bool().Draw(t, "ignore-host")
 		p := build(t, nb, maxConc, parsers, static, answers, nil)
 		defer p.close()
 		srv, err := web.NewHttpServer(logrus.StandardLogger(), p.top, "verif", "127.0.0.1:0", false, false, true, false, nil, nil)
@@ -439,6 +444,7 @@ func TestWaitForEventsGated(t *testing.T) {
 			snd.mode = rapid.SampledFrom([]string{"miss-success", "miss-failure"}).Draw(t, "lookup")
 		}
 		hold := make(chan struct{})
+		parserIgnoreHost = rapid.Bool().Draw(t, "ignore-host")
 		p := build(t, nb, maxConc, 1, nil, map[string]*sender{snd.ip: snd}, hold)
 		defer p.close()
 		if !pendingLookup {
@@ -510,7 +516,7 @@ func TestEventsForwarderMode(t *testing.T) {
 		go func() { fwd.Run(ctx); close(fdone) }()
 		th := statsd.NewTagHandler(fwd, gostatsd.Tags(append([]string(nil), static...)), nil)
 		in := make(chan []*statsd.Datagram)
-		dp := statsd.NewDatagramParser(in, "", false, 0, th, 0, false, logrus.StandardLogger())
+		dp := statsd.NewDatagramParser(in, "", rapid.Bool().Draw(t, "ignore-host"), 0, th, 0, false, logrus.StandardLogger())
 		pdone := make(chan struct{})
 		go func() { dp.Run(ctx); close(pdone) }()
 		defer func() { cancel(); <-fdone; <-pdone }()
